@@ -338,6 +338,94 @@ func c19OpenedThenPlaying(c *h.Ctx) {
 	c.Sample(map[string]interface{}{"kind": "hand state delivered on an opened snapshot first, then on the playing one"})
 }
 
+// c19ManualAnswers: the human answers some requests himself (through the runner's own action methods) and then goes
+// silent. Auto-play must neither act early for the next request (a clock left over from the answered one) nor forget
+// it (a clock stopped after the next request had already arrived while the answer was still on its way).
+func c19ManualAnswers(c *h.Ctx) {
+	mk := func(game string, stamp int64, event string, allowed []string) *pt.Table {
+		t := c19Table(allowed, event, []string{"dealer"}, 1, stamp)
+		t.State.GameState.GameID = game
+		return t
+	}
+	judge := func(what string, calls []spyCall, askedAt int64, want string) bool {
+		var auto []spyCall
+		for _, cl := range calls {
+			if cl.Mono > askedAt {
+				auto = append(auto, cl)
+			}
+		}
+		if len(auto) == 0 {
+			c.Violate("C19/no-automatic-action/after-a-manual-answer", fmt.Sprintf("%s: the player was asked again and stayed silent; 1.6 s later (thinking time 1 s) nothing has been submitted for him", what), calls)
+			return false
+		}
+		if el := time.Duration(auto[0].Mono - askedAt); el < time.Second-5*time.Millisecond {
+			c.Violate("C19/acted-before-thinking-time-elapsed", fmt.Sprintf("%s: %s submitted %v after the request (thinking time 1 s)", what, auto[0].Act, el), calls)
+			return false
+		}
+		if len(auto) != 1 || auto[0].Act != want {
+			c.Violate("C19/not-the-most-conservative-action", fmt.Sprintf("%s: expected exactly one automatic %s, got %v", what, want, auto), calls)
+			return false
+		}
+		return true
+	}
+	// (1) answered by hand at the end of one hand, asked again early in the next
+	{
+		pr := actor.NewPlayerRunner("me")
+		sp := &spyAdapter{noForward: true, name: "me", idx: 0}
+		a := actor.NewActor()
+		a.SetAdapter(sp)
+		a.SetRunner(pr)
+		t1 := mk("hand-1", 1000, "RoundStarted", []string{"check", "fold", "allin"})
+		sp.gs = t1.State.GameState
+		a.UpdateTableState(t1)
+		time.Sleep(time.Duration(200+c.R.Intn(200)) * time.Millisecond)
+		pr.Check() // the human answers himself
+		time.Sleep(time.Duration(100+c.R.Intn(200)) * time.Millisecond)
+		t2 := mk("hand-2", 2000, "RoundStarted", []string{"check", "fold", "allin"})
+		sp.gs = t2.State.GameState
+		asked := h.Mono()
+		a.UpdateTableState(t2)
+		time.Sleep(1600 * time.Millisecond)
+		if !judge("answered by hand in hand 1, asked again in hand 2", sp.snapshotCalls(), asked, "check") {
+			return
+		}
+	}
+	// (2) the next request arrives while the manual answer is still inside the engine
+	{
+		pr := actor.NewPlayerRunner("me")
+		sp := &spyAdapter{noForward: true, name: "me", idx: 0}
+		a := actor.NewActor()
+		a.SetAdapter(sp)
+		a.SetRunner(pr)
+		t1 := mk("hand-1", 1000, "RoundStarted", []string{"call", "fold", "allin"})
+		sp.gs = t1.State.GameState
+		a.UpdateTableState(t1)
+		time.Sleep(time.Duration(100+c.R.Intn(300)) * time.Millisecond)
+		var asked int64
+		sp.inCall = func(act string) {
+			if act != "call" {
+				return
+			}
+			sp.inCall = nil
+			// what the table does before the call returns: the hand moves on and asks the same player again
+			t2 := mk("hand-1", 2000, "RoundStarted", []string{"check", "bet", "fold", "allin"})
+			sp.gs = t2.State.GameState
+			done := make(chan struct{})
+			go func() { asked = h.Mono(); a.UpdateTableState(t2); close(done) }()
+			<-done
+		}
+		pr.Call()
+		time.Sleep(1600 * time.Millisecond)
+		if !judge("asked again while his manual call was still on its way", sp.snapshotCalls(), asked, "check") {
+			return
+		}
+	}
+	c.Feature("manual-answers-then-silence")
+	c.Nontrivial()
+	c.FP("manual", c.Seed)
+	c.Sample(map[string]interface{}{"kind": "manual answers followed by silence (clock carried over / clock stopped late)"})
+}
+
 func c19Real(c *h.Ctx) {
 	r := c.R
 	cfg := h.GenTable(r, h.GenOpts{MinSeats: 2, MaxSeats: 6, MinPlayers: 2, Modes: []string{"ct", "cash"}, ActionTime: 1})
@@ -603,7 +691,7 @@ func init() {
 			return map[string]int{"quick": 100, "thorough": 1700}[tier]
 		},
 		RequiredFeatures: func(string) []string {
-			return []string{"decision-table-part-0/8", "decision-table-part-7/8", "real-table:running", "real-table:idle", "real-table:suspended", "real:ready", "real:fold", "real:check", "real:pay", "real:level-raised-mid-hand", "real:table-level-event-during-thinking-time", "state-first-seen-on-an-opened-snapshot"}
+			return []string{"decision-table-part-0/8", "decision-table-part-7/8", "real-table:running", "real-table:idle", "real-table:suspended", "real:ready", "real:fold", "real:check", "real:pay", "real:level-raised-mid-hand", "real:table-level-event-during-thinking-time", "state-first-seen-on-an-opened-snapshot", "manual-answers-then-silence"}
 		},
 		Post: func(tier string, rs []*h.CaseResult) map[string]interface{} {
 			var n int64
@@ -626,6 +714,10 @@ func init() {
 			}
 			if c.Case%32 == 9 {
 				c19OpenedThenPlaying(c)
+				return
+			}
+			if c.Case%32 == 25 {
+				c19ManualAnswers(c)
 				return
 			}
 			c19Real(c)
